@@ -122,7 +122,7 @@ func destinationTables(c *Ctx) {
 				canon = canon[i+len("/vendor/"):]
 			}
 			want = "<no import registered for " + canon + ">"
-			if mv, _ := w.mapField(false); mv != nil {
+			if mv := w.registered(); mv != nil {
 				for i, k := range mv.Keys {
 					if ks, ok := k.(*interp.Sym); ok && ks.Flat() == canon {
 						if q, err := w.qualifier(mv.Vals[i]); err == nil {
@@ -168,10 +168,7 @@ func destinationTables(c *Ctx) {
 			run.Undecided("G-DEST/addimport", tc.desc, p, "AddImport cannot be evaluated: "+err.Error())
 			continue
 		}
-		imports, _ := w.mapField(false)
-		if imports == nil {
-			imports = &interp.MapV{}
-		}
+		imports := w.registered()
 		_, isNil := got.(interp.NilV)
 		ok := isNil == tc.wantNil
 		if tc.wantNil {
@@ -182,7 +179,7 @@ func destinationTables(c *Ctx) {
 				got2, err2 := w.addImport(tc.wantKey, "p")
 				p1, _ := got.(*interp.Ptr)
 				p2, _ := got2.(*interp.Ptr)
-				ok = err2 == nil && p1 != nil && p2 != nil && p1.Elem == p2.Elem && len(imports.Keys) == 1
+				ok = err2 == nil && p1 != nil && p2 != nil && p1.Elem == p2.Elem && len(w.registered().Keys) == 1
 			}
 		}
 		run.Check("G-DEST/addimport", tc.desc, apos, ok, fmt.Sprintf("registering %s (destination %q, path %q): returned %s, import map keys %v — want %s", tc.desc, rwSrcPath, tc.pkgPath, interp.Show(got), showKeys(imports), map[bool]string{true: "nil and nothing registered (a file never imports its own package)", false: "one import under the canonical path, the same one on re-registration"}[tc.wantNil]))
